@@ -75,7 +75,10 @@ PROPS = {
                  "tables), model-checked on every cell of small subdivisions (counts 8/7/6, symmetry, unique labels, missing cardinal only at "
                  "3-cell points); TLC generates the expected neighbour map of every cell of depths 0..3 (0..5 thorough) and of all corner/border "
                  "classes of the 12 base cells at deep depths, replayed into neighbours()/neighbour(); recorded calls on random cells at all "
-                 "depths are validated by the trace spec. This property is decided entirely by the specification (no float bridge).",
+                 "depths are validated by the trace spec. NeighAlgo.tla transcribes the crate's seam tables and offset arithmetic and MC_NeighAlgo shows "
+                 "that the transcription refines the geometric definition on every cell of N in {1,2,3,4,8}; the depth-0 table neighbour(base_cell, dir) "
+                 "and the MainWind offset helpers are generated from the geometry and replayed into the public functions. This property is decided "
+                 "entirely by the specification (no float bridge).",
         "rule": "events = Layer::neighbours(h, false/true), Layer::neighbour(h, dir) for all 8 directions and the free function, for seeded random "
                 "cells and base-cell corner/border cells at depths 0..29, judged direction by direction against the adjacency derived from "
                 "sphere-point gluing (HpxGeo!NeighAt); generated cases = every cell of small depths and all border/corner classes of deeper "
@@ -83,7 +86,9 @@ PROPS = {
         "assumptions": GEO_ASSUME[:1] + GEO_ASSUME[2:],
         "stages": [
             {"kind": "mc", "module": "MC_Geo", "cfg": {"quick": "MC_Geo.cfg", "thorough": "MC_Geo_thorough.cfg"}, "workers": 6},
+            {"kind": "mc", "module": "MC_NeighAlgo", "cfg": {"quick": "MC_NeighAlgo.cfg", "thorough": "MC_NeighAlgo_thorough.cfg"}, "workers": 4},
             {"kind": "gen", "module": "Gen_Neigh", "cfg": {"quick": "Gen_Neigh.cfg", "thorough": "Gen_Neigh_thorough.cfg"}, "scenario": "C04", "exhaustive": True},
+            {"kind": "gen", "module": "Gen_NeighTables", "cfg": "Gen_NeighTables_bn.cfg", "scenario": "TABLES", "exhaustive": True},
             {"kind": "rec", "scenario": "C04", "count": {"quick": 8000, "thorough": 200000}, "trace_module": "Trace_Geo", "trace_cfg": "Trace_Geo.cfg",
              "nontrivial": lambda ev: ev["ev"] == "neigh" and (ev["c"][1] in (0, 2 ** ev["d"] - 1) or ev["c"][2] in (0, 2 ** ev["d"] - 1))},
         ],
@@ -95,7 +100,10 @@ PROPS = {
                  "walk S->E->N->W is closed, adjacent, duplicate free and the filed external edge equals the geometric one. TLC generates the "
                  "expected walk / sets / sides / corners for all cells of small depths x delta 1..3 and the base-cell corner and border classes of "
                  "deep depths (depth + delta up to 29), replayed through every accessor (methods, free functions, sorted variants, struct, "
-                 "per-corner and per-side helpers); recorded calls on random cells are validated by the trace spec. delta_depth = 0 is excluded "
+                 "per-corner and per-side helpers); recorded calls on random cells are validated by the trace spec. The direction tables used by the "
+                 "external-edge code (direction_from_neighbour, edge_cell_direction_from_neighbour) are transcribed in NeighAlgo.tla, shown by "
+                 "MC_NeighAlgo to equal the geometric direction of the cell seen from its neighbour, and every reachable entry generated from "
+                 "the geometry is replayed into the public functions (documented panics included). delta_depth = 0 is excluded "
                  "(the 4*2^delta-4 formula is degenerate there).",
         "rule": "events = one (cell, delta_depth) with the results of internal_edge, internal_edge_sorted, external_edge, external_edge_sorted, "
                 "external_edge_struct (4 sides, 4 corners), internal_corner x4, internal_edge_part x4 and the free-function variants; judged by "
@@ -103,7 +111,9 @@ PROPS = {
         "assumptions": GEO_ASSUME[:1] + GEO_ASSUME[2:],
         "stages": [
             {"kind": "mc", "module": "MC_Geo", "cfg": {"quick": "MC_Geo.cfg", "thorough": "MC_Geo_thorough.cfg"}, "workers": 6},
+            {"kind": "mc", "module": "MC_NeighAlgo", "cfg": {"quick": "MC_NeighAlgo.cfg", "thorough": "MC_NeighAlgo_thorough.cfg"}, "workers": 4},
             {"kind": "gen", "module": "Gen_Edges", "cfg": {"quick": "Gen_Edges.cfg", "thorough": "Gen_Edges_thorough.cfg"}, "scenario": "C14", "exhaustive": True},
+            {"kind": "gen", "module": "Gen_NeighTables", "cfg": "Gen_NeighTables_dfn.cfg", "scenario": "TABLES", "exhaustive": True},
             {"kind": "rec", "scenario": "C14", "count": {"quick": 1600, "thorough": 40000}, "trace_module": "Trace_Geo", "trace_cfg": "Trace_Geo.cfg",
              "nontrivial": lambda ev: ev["c"][1] in (0, 2 ** ev["d"] - 1) or ev["c"][2] in (0, 2 ** ev["d"] - 1)},
         ],
